@@ -1085,6 +1085,7 @@ func newNeighborFromAPIStruct(a *api.Peer) (*oc.Neighbor, error) {
 		pconf.GracefulRestart.Config.DeferralTime = uint16(a.GracefulRestart.DeferralTime)
 		pconf.GracefulRestart.Config.NotificationEnabled = a.GracefulRestart.NotificationEnabled
 		pconf.GracefulRestart.Config.LongLivedEnabled = a.GracefulRestart.LonglivedEnabled
+		pconf.GracefulRestart.Config.StaleRoutesTime = float64(a.GracefulRestart.StaleRoutesTime)
 		pconf.GracefulRestart.State.LocalRestarting = a.GracefulRestart.LocalRestarting
 	}
 	readApplyPolicyFromAPIStruct(&pconf.ApplyPolicy, a.ApplyPolicy)
